@@ -10,7 +10,7 @@ props = [json.loads(l) for l in open(os.path.join(VERIF, 'properties.jsonl'))]
 
 LEVEL = {
  'C01': ('Lean 4 theorems: (i) for EVERY string that parses strictly and meets the side conditions (no NUL/DEL, no made-up arguments, plain environment names, no whitespace token before an opener) the serialisation equals the source (C01.roundtrip, from the conservation invariant of all reader functions); (ii) every well-formed, self-tokenizing document of the grammar parses to its generating tree (C02.document_parses = token-level completeness of the reader + tokenizer inverse); (iii) the property in its own words for grammar documents: well-formed + adjacent argument groups (squeezeD d = d) + plainly written environment names => parses in both modes and prints as the source, no further side condition (C01G.document_roundtrip); (iv) node positions carry the first token of the node and every text leaf is the source slice at its position (C13). The check also runs one document per code point beyond ASCII and documents drawn from the proved Lean grammar through the implementation.', '0.5, 5 C01'),
- 'C02': ('Lean 4 theorems: token-level completeness of the reader on a grammar of all documented constructs (leaf, group, math, commands with open/fixed/zero/special signatures and spaced argument runs, \\\\item, named and math environments, verbatim-like environments), any nesting, both tolerances, at the fuel the parser uses (C02.tree_mirrors_document); tokenizer inverse (tokenize_iff); composed at string level (C02.document_parses). The generating tree IS the result. Tie to the code: documents drawn from the Lean grammar + the Python generator, three-way comparison.', '0.5, 5 C02'),
+ 'C02': ('Lean 4 theorems: token-level completeness of the reader on a grammar of all documented constructs (leaf, group, math, commands with open/fixed/zero/special signatures and spaced argument runs, \\\\item, named and math environments, verbatim-like environments), any nesting, both tolerances, at the fuel the parser uses (C02.tree_mirrors_document); tokenizer inverse (tokenize_iff); composed at string level (C02.document_parses). The generating tree IS the result. Tie to the code: documents drawn from the Lean grammar + the Python generator, three-way comparison. On every run the generated documents and the repository corpus are CERTIFIED as instances of the proved grammar: a candidate grammar document is rebuilt from tokens and tree and the theorem hypotheses are evaluated by the compiled definitions (C02.cert_sound states what a positive certificate means).', '0.5, 5 C02'),
  'C03': ('Lean 4 theorems over all trees: find_all is the filter of descendants, equals the structural occurrence list up to permutation without duplicate paths, find/count/getattr/name lists/absent names/full-expression queries as stated; model tied to data.py by correspondence at every node', '5 C03'),
  'C04': ('Lean 4 theorems over all trees: contents/children/iteration, descendants = transitive closure (permutation, every path once), text = non-blank leaves in serialisation order, root concatenation, parent = source of the view, parent chain reaches the root', '5 C04'),
  'C05': ('Lean 4 theorems over all trees and paths: delete/replace/insert/append are splices of the serialised text at the target span; nodes off the path unchanged; twins covered by path addressing; negative theorem for the unrepaired lookup', '5 C05'),
